@@ -162,7 +162,8 @@ def dump(f):
             r = ["bv", int(n.constant_value()), n.bv_width()]
         elif t in (op.FORALL, op.EXISTS):
             r = ["forall" if t == op.FORALL else "exists",
-                 [[v.symbol_name(), _js(sort_of(v.symbol_type()))] for v in n.quantifier_vars()],
+                 [([v.symbol_name(), _js(sort_of(v.symbol_type()))] if v.is_symbol()
+                   else ["?not-a-symbol", str(v)]) for v in n.quantifier_vars()],
                  ka[0]]
         elif t == op.FUNCTION:
             fn = n.function_name()
